@@ -89,8 +89,9 @@ func LogClose(closer io.Closer) error {
 func PipeData(down io.ReadWriteCloser, up io.ReadWriteCloser) error {
 	log.Debugf("Piping data %v <-> %v", down, up)
 
-	downPipe := make(chan error, 0)
-	upPipe := make(chan error, 0)
+	// Buffered: only one of the two results is ever received, the other copy loop must still be able to finish
+	downPipe := make(chan error, 1)
+	upPipe := make(chan error, 1)
 
 	if os.Getenv("SOCKETACE_PIPE_DEBUG") == "1" {
 		go pipeDebugData(downPipe, down, up)
